@@ -157,13 +157,18 @@ Definition response_with (fixed : bool) (g : idp_args) (i : ident) : result xml 
   let adv := if g_pefim g then [advice_assertion p (i_attrs i)] else [] in
   let main_attrs := if g_pefim g then [] else i_attrs i in
   let main (advice : list xml) := main_assertion p (i_name_id i) advice main_attrs in
-  let to_sign := negb (g_encrypt_assertion g) && g_sign_assertion g in
-  (* Entity._response *)
   let has_cert := negb (is_nil (g_md_certs g)) in
+  (* fix: 28208820 (found by C08): encryption asked for, no advice encryption, no certificate argument and no
+     certificate in the SP's metadata => _authn_response itself switches encrypt_assertion off, so that a
+     requested assertion signature is prepared here (Entity._response would silently not encrypt and not sign) *)
+  let enc_req := if g_encrypt_assertion g && negb enc_adv0 && is_cnone (g_cert_assertion g) && negb has_cert
+                 then false else g_encrypt_assertion g in
+  let to_sign := negb enc_req && g_sign_assertion g in
+  (* Entity._response *)
   let enc_adv := if negb has_cert && is_cnone (g_cert_advice g) then false else enc_adv0 in
-  let enc_as := if negb has_cert && is_cnone (g_cert_assertion g) then false else g_encrypt_assertion g in
+  let enc_as := if negb has_cert && is_cnone (g_cert_assertion g) then false else enc_req in
   let adv_one := enc_adv && (List.length adv =? 1)%nat in
-  let early := negb (g_sign_response g) && to_sign && negb (g_encrypt_assertion g) && (if fixed then negb enc_adv0 else true) in
+  let early := negb (g_sign_response g) && to_sign && negb enc_req && (if fixed then negb enc_adv0 else true) in
   if early then Ok (response_el p [sign_el key (main adv)]) else
   if enc_as || adv_one then
     (* advice branch: the advice assertion is signed (unless pefim), then encrypted *)
